@@ -96,16 +96,14 @@ Definition opts_in_order (set : list (N * bytes)) (order : list N) : option (lis
   if forallb (fun x => match x with Some _ => true | None => false end) l
   then Some (concat (map (fun x => match x with Some o => [o] | None => [] end) l)) else None.
 
-Definition or0 (a : option bytes) : bytes := match a with Some x => x | None => [0;0;0;0] end.
 Definition orE (a : option bytes) : bytes := match a with Some x => x | None => [] end.
-
-Definition msearch_lf (pl : bytes) : bool :=
-  (nth 0 pl 0 =? 10) && beq (sub pl 1 19) (firstn 19 msearch_line) && (nth 20 pl 0 =? 10).
 
 Definition dispatch (kind : string) (args : list string) : string :=
   match parse_cfg args with
   | None => BADARGS
   | Some (c, rest) =>
+    (* a trailing scenario token (scn:...) only tells the harness how to reproduce the case *)
+    let rest := filter (fun t => negb (String.prefix "scn:" t)) rest in
     let hm := host_mac c in
     if String.eqb kind "purgearp" then
       match rest with
@@ -255,17 +253,18 @@ Definition dispatch (kind : string) (args : list string) : string :=
     else if String.eqb kind "discover" then
       match rest with
       | [ch; ci; xid; name; order; seed] =>
-        match opt_bytes ch, opt_bytes ci, opt_bytes xid, bytes_of_tok name, codes_of_tok order, N_of_dec seed with
+        match opt_bytes ch, opt_bytes ci, bytes_of_tok xid, bytes_of_tok name, codes_of_tok order, N_of_dec seed with
         | Some ch, Some ci, Some xid, Some name, Some order, Some seed =>
             let set := ((match name with [] => [] | _ => [(12, name)] end) ++ [(55, str_discover_prl); (53, [1])])%list in
             match opts_in_order set order with
             | None => BADARGS
             | Some opts =>
-                let wf ciaddr := wf_udp4 hm (router_mac c) (host_ip4 c) (router_ip4 c) 68 67
-                                   (wf_dhcp_client (orE ch) ciaddr xid set) false in
-                verdict kind (send_discover c ch (orE ci) xid opts (poison seed)) (wf (or0 ci))
-                  [("discover-unset-ciaddr-keeps-stale-buffer-bytes",
-                    fun fr => match ci with None => wf (sub fr 54 4) fr | Some _ => false end)]
+                (* ciaddr: the requested IPv4 address, 0.0.0.0 when the caller gave none (or a non-IPv4 one);
+                   xid: the effective transaction id (the caller's, or the random one read from the frame) *)
+                let ciaddr := match ci with Some a => if is4 a then a else [0;0;0;0] | None => [0;0;0;0] end in
+                verdict kind (send_discover c ch (orE ci) xid opts (poison seed))
+                  (wf_udp4 hm (router_mac c) (host_ip4 c) (router_ip4 c) 68 67
+                     (wf_dhcp_client (orE ch) ciaddr (Some xid) set) false) []
             end
         | _, _, _, _, _, _ => BADARGS
         end
@@ -279,16 +278,13 @@ Definition dispatch (kind : string) (args : list string) : string :=
             let decl := String.eqb kind "decline" in
             let set := if decl then [(61, cid); (54, sip); (56, str_decline); (50, cip); (53, [4])]
                        else [(61, cid); (54, sip); (56, str_release); (53, [7])] in
-            (* client.go:85 forceRelease builds its options but passes nil to sendDeclineReleasePacket *)
-            let sent := if decl then set else [(53, [7])] in
             let ciaddr := if decl then [0;0;0;0] else cip in
-            match opts_in_order sent order with
+            match opts_in_order set order with
             | None => BADARGS
             | Some opts =>
-                let wf want := wf_udp4 hm (router_mac c) (host_ip4 c) (router_ip4 c) 68 67
-                                 (wf_dhcp_client ch ciaddr (Some xid) want) false in
                 verdict kind (send_decline_release c (Some ch) ciaddr xid opts (poison seed) (poison seed))
-                  (wf set) [("dhcp-release-without-client-and-server-id", fun fr => negb decl && wf sent fr)]
+                  (wf_udp4 hm (router_mac c) (host_ip4 c) (router_ip4 c) 68 67
+                     (wf_dhcp_client ch ciaddr (Some xid) set) false) []
             end
         | _, _, _ => BADARGS
         end
@@ -302,14 +298,13 @@ Definition dispatch (kind : string) (args : list string) : string :=
             let labels := split_dots name [] in
             if String.eqb kind "mdnsq" then
               let dip := [224;0;0;251] in
-              let wf dm own := wf_udp4 hm dm (host_ip4 c) dip 5353 5353 (wf_dns_query None labels 255 255) own in
-              verdict kind (send_mdns_query c name) (wf (mac_of_mcast4 dip) true)
-                [("ip4-multicast-sent-to-ethernet-broadcast", wf eth_bcast false)]
+              verdict kind (send_mdns_query c name)
+                (wf_udp4 hm (mac_of_mcast4 dip) (host_ip4 c) dip 5353 5353 (wf_dns_query None labels 255 255) true) []
             else
               (* RFC 4795: LLMNR group 224.0.0.252, port 5355 *)
-              let wf dm dip own := wf_udp4 hm dm (host_ip4 c) dip 5355 5355 (wf_dns_query None labels 255 255) own in
-              verdict kind (send_llmnr_query c name) (wf (mac_of_mcast4 [224;0;0;252]) [224;0;0;252] true)
-                [("llmnr-query-to-224.0.0.251-ethernet-broadcast", wf eth_bcast [224;0;0;251] false)]
+              let dip := [224;0;0;252] in
+              verdict kind (send_llmnr_query c name)
+                (wf_udp4 hm (mac_of_mcast4 dip) (host_ip4 c) dip 5355 5355 (wf_dns_query None labels 12 255) true) []
         | None => BADARGS
         end
       | _ => BADARGS
@@ -324,8 +319,7 @@ Definition dispatch (kind : string) (args : list string) : string :=
                 (wf_udp4 hm dm si di port port (beq pl) false) []
             else
               verdict kind (send_mdns c pl (sm, si) (dm, di) port)
-                (wf_udp6 hm dm (as16 si) (as16 di) port port (beq pl))
-                [("udp6-checksum-zero", wf_udp6_nocks hm dm (as16 si) (as16 di) port port (beq pl))]
+                (wf_udp6 hm dm (as16 si) (as16 di) port port (beq pl)) []
         | _, _ => BADARGS
         end
       | _ => BADARGS
@@ -335,9 +329,8 @@ Definition dispatch (kind : string) (args : list string) : string :=
       | [sm; si; dm; di; sq; name; seed] =>
         match all_bytes [sm; si; dm; di; name], N_of_dec sq, N_of_dec seed with
         | Some [sm; si; dm; di; name], Some sq, Some seed =>
-            let wf h := wf_udp4 h dm si di 137 137 (wf_dns_query (Some sq) [nb_label name] 32 1) false in
-            verdict kind (send_nbns_query (sm, si) (dm, di) sq name (poison seed)) (wf hm)
-              [("nbns-ether-src-is-caller-mac", fun fr => negb (beq sm hm) && wf sm fr)]
+            verdict kind (send_nbns_query c (sm, si) (dm, di) sq name (poison seed))
+              (wf_udp4 hm dm si di 137 137 (wf_dns_query (Some sq) [nb_label name] 32 1) false) []
         | _, _, _ => BADARGS
         end
       | _ => BADARGS
@@ -360,9 +353,7 @@ Definition dispatch (kind : string) (args : list string) : string :=
         | Some seed =>
             let dip := [239;255;255;250] in
             verdict kind (send_ssdp_search c (poison seed))
-              (wf_udp4 hm (mac_of_mcast4 dip) (host_ip4 c) dip 1900 1900 wf_msearch true)
-              [("ssdp-msearch-lf-line-ends-ethernet-broadcast",
-                wf_udp4 hm eth_bcast (host_ip4 c) dip 1900 1900 msearch_lf false)]
+              (wf_udp4 hm (mac_of_mcast4 dip) (host_ip4 c) dip 1900 1900 wf_msearch true) []
         | None => BADARGS
         end
       | _ => BADARGS
